@@ -27,6 +27,7 @@ pub open spec fn resolve(base: Seq<int>, cs: Seq<path::Component<'static>>, k: i
     }
 }
 // the containment lemma: a safe component list joined onto ANY base stays inside it at every step
+// @props: C06 C07 -- a safe component list joined onto any base keeps the base as a prefix at every step
 pub proof fn lemma_safe_stays_inside(base: Seq<int>, cs: Seq<path::Component<'static>>, k: int)
     requires safe(cs), 0 <= k <= cs.len()
     ensures
@@ -84,6 +85,7 @@ pub proof fn lemma_depth_of_ordinary(cs: Seq<path::Component<'static>>, k: int)
 {
     if k > 0 { lemma_depth_of_ordinary(cs, k - 1); }
 }
+// @props: C06 -- the sanitised component list is ordinary components only, hence safe
 pub proof fn lemma_sanitized_is_safe(name: Seq<char>)
     ensures safe(sanitized_components(name)),
             forall|i: int| 0 <= i < sanitized_components(name).len() ==> #[trigger] sanitized_components(name)[i] is Normal,
